@@ -1,18 +1,119 @@
-(* C07 — property theorems (statements only; proofs live in ProofsRange.v / ProofsLoop.v / ProofsAtoms.v).
-   The full statements (one induction over the whole template type) are kept as `C07_*_statement`; what is proved are
-   the per-class rules they are assembled from (`_partial`), unbounded in ranges / entry lists / coefficients. *)
+(* C07 — property theorems (statements only; proofs live in the Proofs*.v files).
+   Part A: the three full theorems (one induction over all 13 template classes each) + the duration theorem.
+   Part B: the findings (refutation witnesses; the guards are in Wf.v), non-vacuity, why the side conditions are needed.
+   Part C: the per-class rules of round 1 (still true, now subsumed by part A). *)
 From Coq Require Import ZArith QArith Qround Bool List.
-Require Import QV.C07.Model QV.C07.Spec QV.C07.Wf QV.C07.ProofsRange QV.C07.ProofsLoop QV.C07.ProofsAtoms.
+Require Import QV.C07.Model QV.C07.Spec QV.C07.Wf QV.C07.ProofsRange QV.C07.ProofsLoop QV.C07.ProofsAtoms
+               QV.C07.ProofsDur QV.C07.ProofsInt QV.C07.ProofsIni QV.C07.ProofsFin QV.C07.ProofsWit.
 Import ListNotations.
 Open Scope Q_scope.
 
-(* ---- full statements (not proved as a whole; need a well-formedness side condition on p) ---- *)
+(* ================================================== Part A ================================================== *)
+(* `wf p` (Wf.v, executable) = what the constructors of the real classes enforce: channel ids form a set, sequence
+   children define the same channels, the loop index does not occur in its range, coefficient expressions do not
+   mention t, time dependent parallel values only over atomic templates, scalar mappings only mention the template's
+   channels, no scalar / template.  `denote p rho = Some pcs`: the template is instantiable at rho (Spec.v).
+   `eval rho e = Some v`: the symbolic value evaluates to a number at rho. *)
+
+(* duration: the symbolic duration is the total length of the instantiated pulse *)
+Theorem C07_duration : forall p rho pcs v, wf p = true -> denote p rho = Some pcs ->
+  eval rho (duration_expr p) = Some v -> v == total pcs.
+Proof. exact duration_correct. Qed.
+Print Assumptions C07_duration.
+
+(* integral: every template tree, every environment, every channel, every range shape — no guard needed *)
+Theorem C07_integral : forall p rho pcs c e v,
+  wf p = true -> denote p rho = Some pcs -> dget c (integral_expr p) = Some e -> eval rho e = Some v ->
+  exists x, p_int pcs c = Some x /\ v == x.
+Proof. exact integral_correct. Qed.
+Print Assumptions C07_integral.
+
+(* initial value: under the guard of finding `initial-head-empty-or-jump` *)
+Theorem C07_initial_guarded : forall p rho pcs c e x v,
+  wf p = true -> guard_C07_initial_head p rho = true -> denote p rho = Some pcs ->
+  dget c (initial_expr p) = Some e -> p_at0 pcs c = Some x -> eval rho e = Some v -> v == x.
+Proof. exact initial_correct. Qed.
+Print Assumptions C07_initial_guarded.
+
+(* final value: under the guards of findings `final-tail-empty` and `for-final-floor` *)
+Theorem C07_final_guarded : forall p rho pcs c e x v,
+  wf p = true -> guard_C07_final_tail p rho = true -> guard_C07_for_final_floor_path p rho = true ->
+  denote p rho = Some pcs -> dget c (final_expr p) = Some e -> p_end pcs c = Some x -> eval rho e = Some v -> v == x.
+Proof. exact final_correct. Qed.
+Print Assumptions C07_final_guarded.
+
+(* atomic templates denote at most one piece (used for time dependent parallel channels) *)
+Theorem C07_atomic_single_piece : forall p rho pcs, atomic p = true -> denote p rho = Some pcs -> (length pcs <= 1)%nat.
+Proof. exact atomic_pieces. Qed.
+Print Assumptions C07_atomic_single_piece.
+
+(* ================================================== Part B ================================================== *)
+(* the unguarded statements of round 1, literally as written then (total evaluation, no well-formedness): *)
 Definition C07_integral_statement : Prop := forall p rho pcs c e,
   denote p rho = Some pcs -> dget c (integral_expr p) = Some e -> exists x, p_int pcs c = Some x /\ ev_eq rho e x.
 Definition C07_initial_statement : Prop := forall p rho pcs c e x,
   denote p rho = Some pcs -> dget c (initial_expr p) = Some e -> p_at0 pcs c = Some x -> ev_eq rho e x.
 Definition C07_final_statement : Prop := forall p rho pcs c e x,
   denote p rho = Some pcs -> dget c (final_expr p) = Some e -> p_end pcs c = Some x -> ev_eq rho e x.
+
+(* ... are false: the integral one only because evaluation is lazy in the code (the values of an empty ConstantPT are
+   never looked at by create_program, but `integral` multiplies them with the duration) — hence `eval rho e = Some v`
+   is a hypothesis of C07_integral; the other two because of the findings. *)
+Theorem C07_integral_statement_refuted : ~ C07_integral_statement.
+Proof. exact integral_statement_refuted. Qed.
+Print Assumptions C07_integral_statement_refuted.
+
+(* finding initial-head-empty-or-jump: TablePT({'A': [(0, 1), (1, 3, 'jump')]}) — initial_values 1, plays 3 *)
+Theorem C07_initial_refuted : exists p rho pcs c e x v,
+  wf p = true /\ denote p rho = Some pcs /\ dget c (initial_expr p) = Some e /\ p_at0 pcs c = Some x /\
+  eval rho e = Some v /\ ~ v == x /\ guard_C07_initial_head p rho = false.
+Proof. exact initial_refuted. Qed.
+Print Assumptions C07_initial_refuted.
+
+(* finding final-tail-empty: ConstantPT(1, {'A': 1}) @ ConstantPT(0, {'A': 5}) — final_values 5, ends on 1 *)
+Theorem C07_final_tail_refuted : exists p rho pcs c e x v,
+  wf p = true /\ denote p rho = Some pcs /\ dget c (final_expr p) = Some e /\ p_end pcs c = Some x /\
+  eval rho e = Some v /\ ~ v == x /\ guard_C07_final_tail p rho = false /\ guard_C07_for_final_floor_path p rho = true.
+Proof. exact final_tail_refuted. Qed.
+Print Assumptions C07_final_tail_refuted.
+
+(* finding for-final-floor on a whole template: ForLoopPT(TablePT({'A': [(0,'i'), (1,'i+1','linear')]}), 'i', (0,5,2)) —
+   final_values 3, ends on 5 *)
+Theorem C07_final_floor_refuted : exists p rho pcs c e x v,
+  wf p = true /\ denote p rho = Some pcs /\ dget c (final_expr p) = Some e /\ p_end pcs c = Some x /\
+  eval rho e = Some v /\ ~ v == x /\ guard_C07_final_tail p rho = true /\ guard_C07_for_final_floor_path p rho = false.
+Proof. exact final_floor_refuted. Qed.
+Print Assumptions C07_final_floor_refuted.
+
+(* the guards are satisfiable by a non-trivial template: a for-loop over range(0,6,2) around a mapped table,
+   three pieces, all hypotheses of the three theorems hold and all three symbolic values evaluate *)
+Theorem C07_guards_nonvacuous : exists p rho pcs c,
+  wf p = true /\ guard_C07_initial_head p rho = true /\ guard_C07_final_tail p rho = true /\
+  guard_C07_for_final_floor_path p rho = true /\ denote p rho = Some pcs /\ (length pcs = 3)%nat /\
+  (exists e v, dget c (integral_expr p) = Some e /\ eval rho e = Some v) /\
+  (exists e v x, dget c (initial_expr p) = Some e /\ eval rho e = Some v /\ p_at0 pcs c = Some x) /\
+  (exists e v x, dget c (final_expr p) = Some e /\ eval rho e = Some v /\ p_end pcs c = Some x).
+Proof. exact guards_nonvacuous. Qed.
+Print Assumptions C07_guards_nonvacuous.
+
+(* the loop guard is exact: the substituted (floor) index is the last index IFF the step divides the span or the loop
+   has exactly one iteration (range(0,1,2)); so the finding class is: step does not divide the span AND >= 2 iterations *)
+Theorem C07_floor_guard_exact : forall a o s ks, py_range a o s = Some ks -> ks <> [] ->
+  (floor_final_index a o s = last ks 0%Z <-> ((o - a) mod s = 0 \/ length ks = 1%nat)%Z).
+Proof. exact floor_final_index_exact. Qed.
+Print Assumptions C07_floor_guard_exact.
+
+Theorem C07_floor_guard_divides : forall a o s ks, py_range a o s = Some ks -> ks <> [] -> ((o - a) mod s = 0)%Z ->
+  floor_final_index a o s = last ks 0%Z.
+Proof. exact floor_final_index_ok. Qed.
+Print Assumptions C07_floor_guard_divides.
+
+Theorem C07_floor_guard_not_only_divides : exists a o s ks, py_range a o s = Some ks /\ ks <> [] /\
+  ((o - a) mod s <> 0)%Z /\ floor_final_index a o s = last ks 0%Z.
+Proof. exact floor_guard_nondividing. Qed.
+Print Assumptions C07_floor_guard_not_only_divides.
+
+(* ================================================== Part C ================================================== *)
 
 (* ---- Python range vs. the closed forms of ForLoopPT ---- *)
 Theorem C07_range_count : forall a o s, (s <> 0)%Z ->
